@@ -116,6 +116,10 @@ class Aff:
                 if sp is not None and ("root", sp["l"]) in env:
                     # moving (a part of) a produced value keeps its identity
                     env[("root", l)] = env[("root", sp["l"])] + "".join("." + str(e.get("n", e["f"])) for e in sp["p"] if isinstance(e, dict) and "f" in e)
+                elif sp is not None and not any(e == "*" for e in sp["p"]) and not self.b.local_ty(l).startswith(("u", "i", "bool", "&")):
+                    # ... also when the value was not produced by a call (taken out of a tuple, an Option): its identity is
+                    # the place it was taken from
+                    env[("root", l)] = "L%d" % sp["l"] + "".join("." + str(e.get("n", e["f"])) for e in sp["p"] if isinstance(e, dict) and "f" in e)
                 v = self.operand(env, r["op"])
                 if v is TOP:
                     env.pop(l, None)
